@@ -97,3 +97,6 @@
 ; shifts on spec integers (dual definition in the BV prelude: bvshl / bvlshr on 256 bits)
 (define-fun shl ((x Int) (o Int)) Int (* x (pow2 o)))
 (define-fun shr ((x Int) (o Int)) Int (div x (pow2 o)))
+; normal form of a finite non-zero Decimal: exponent closest to zero that still holds all digits
+(define-fun NF ((c Int) (e Int)) Bool
+  (or (= e 6176) (and (> e 6176) (> (* 10 c) M)) (and (< e 6176) (not (= (mod c 10) 0)))))
